@@ -1,5 +1,9 @@
 (* C04 (names) — every well-formed compressed name is accepted: completeness of the name reader with
    respect to the reference semantics Spec.Names.expand, and the exact acceptance condition. *)
+From Coq Require Import Lia Permutation.
+From DNS Require Import Model.Dec Spec.Names Spec.Wire Spec.Render
+  Proofs.RtPrim Proofs.RtRecord Proofs.RtMsg Proofs.C05
+  Proofs.RenderBase Proofs.RenderName Proofs.RenderRecord Proofs.RenderSvcb Proofs.RenderTop.
 From DNS Require Import Model.Dec Spec.Names Proofs.DecBase Proofs.DecName Proofs.DecNameSpec
   Proofs.DecNameSound Proofs.DecNameCyclic Proofs.DecNameComplete.
 From DNS Require Import Spec.Wire Proofs.CorrMsg Proofs.CorrTop.
@@ -172,3 +176,225 @@ Example C04_chain_18_rejected :
   expand 17 (chain_msg 18) 35 = None /\
   domain_name (chain_msg 18) (jump (chain_msg 18) 35 0) = DErr (EMaxRecursion, [17]) 36.
 Proof. split; vm_compute; reflexivity. Qed.
+
+(* ------------------------------------------------------------------------------------------
+   render: every legal wire rendering (Spec/Render.v) of a well-formed message is accepted with that message *)
+(* C04 (renderings) — every well-formed message of the supported types is accepted, exactly: for every
+   message value that satisfies [dns_wf] and EVERY legal wire rendering of it in the sense of the
+   declarative specification Spec/Render.v (any backward name compression within the hop budget, any
+   label case, minimal or zero-padded address prefixes, any SvcParam order, empty variable fields where
+   the value is empty), the reference decoder Spec/Wire.v — and hence the decoder model — succeeds and
+   returns that message (names up to ASCII case, as compared by the library). *)
+
+
+
+(* Vocabulary:
+   renders_dns m b : b is a legal wire rendering of m (Spec/Render.v)
+   dns_wf m        : the values of m are within the limits of their wire formats (Proofs/C05.v)
+   dns_eqv m' m    : equal up to the ASCII case of name labels and the order of "mandatory" keys
+   acc E p pre w v : behind [pre] and before any [post], the reference parser p consumes exactly w
+                     and returns v (E: the limit is exactly the end of w) *)
+
+(* the reference decoder accepts every legal rendering with an equivalent value *)
+Theorem C04_render_accepted : forall (m : dns) (b : bytes),
+  dns_wf m = true -> renders_dns m b -> lenN b <= 65535 ->
+  exists m', spec_Dns b = Some m' /\ dns_eqv m' m.
+Proof. exact render_accepted. Qed.
+Print Assumptions C04_render_accepted.
+
+(* a legal rendering of a well-formed message consists of octets *)
+Theorem C04_render_bytes_ok : forall (m : dns) (b : bytes),
+  dns_wf m = true -> renders_dns m b -> lenN b <= 65535 -> bytes_ok b.
+Proof. exact render_bytes_ok. Qed.
+Print Assumptions C04_render_bytes_ok.
+
+(* ... and so does the decoder model of the library *)
+Theorem C04_render_accepted_dec : forall (m : dns) (b : bytes),
+  dns_wf m = true -> renders_dns m b -> lenN b <= 65535 ->
+  exists m' s, dec_Dns b = DOk m' s /\ dns_eqv m' m.
+Proof. exact render_accepted_dec. Qed.
+Print Assumptions C04_render_accepted_dec.
+
+(* the restriction to the plain record types of the format table *)
+Theorem C04_render_accepted_plain : forall (m : dns) (b : bytes),
+  dns_wf_plain m = true -> renders_dns m b -> lenN b <= 65535 ->
+  exists m', spec_Dns b = Some m' /\ dns_eqv m' m.
+Proof. exact render_accepted_plain. Qed.
+Print Assumptions C04_render_accepted_plain.
+
+(* names: a rendering expands, in the reference semantics, to a case variant of the name, in at most
+   16 hops, and ends where the rendering ends *)
+Theorem C04_render_name_expands : forall (pre : bytes) (n : name) (w : bytes),
+  renders_name pre n w -> name_wf n = true ->
+  bytes_ok w /\
+  exists x, expand 16 (pre ++ w) (lenN pre) = Some x /\ ci_name n (x_name x) /\
+            x_end x = lenN pre + lenN w.
+Proof. exact renders_name_expand. Qed.
+Print Assumptions C04_render_name_expands.
+
+Theorem C04_render_name_expands_in_message : forall (pre : bytes) (n : name) (w : bytes),
+  renders_name pre n w -> name_wf n = true ->
+  exists x, ci_name n (x_name x) /\ x_end x = lenN pre + lenN w /\ (x_hops x <= 16)%nat /\
+            forall post, expand 16 (pre ++ w ++ post) (lenN pre) = Some x.
+Proof. exact renders_name_expand_post. Qed.
+Print Assumptions C04_render_name_expands_in_message.
+
+(* a rendering of a well-formed name is accepted by the reference name parser, whatever the limit *)
+Theorem C04_render_name_accepted : forall (pre : bytes) (n : name) (w : bytes),
+  renders_name pre n w -> name_wf n = true ->
+  bytes_ok w /\ exists n' : name, acc false pname pre w n' /\ name_eqv n' n.
+Proof. exact renders_name_acc. Qed.
+Print Assumptions C04_render_name_accepted.
+
+(* the reference semantics of names is stable under appending octets *)
+Theorem C04_expand_app : forall (post : bytes) (h : nat) (b : bytes) (o : N) x,
+  expand h b o = Some x -> expand h (b ++ post) o = Some x.
+Proof. exact expand_app. Qed.
+Print Assumptions C04_expand_app.
+
+(* SvcParams: any order of a key-sorted parameter list is put back in order by the reference *)
+Theorem C04_svc_set_any_order : forall ps ps' : list svcparam,
+  SvcbSet.keys_sorted ps -> Permutation.Permutation ps ps' -> as_set [] ps' = Some ps.
+Proof. exact as_set_perm. Qed.
+Print Assumptions C04_svc_set_any_order.
+
+(* ---- examples (non-vacuity) ----
+   1. a response with one question and two answers: the question name is written "WwW.Example.com"; both
+      owner names are pointers to it (offset 12); the MX exchange is the literal label "MAIL" followed by a
+      pointer to "Example.com" (offset 16).  The value holds the names in lower case. *)
+Definition l_www : label := [119; 119; 119].
+Definition l_example : label := [101; 120; 97; 109; 112; 108; 101].
+Definition l_com : label := [99; 111; 109].
+Definition l_mail : label := [109; 97; 105; 108].
+Definition www : name := [l_www; l_example; l_com].
+
+Definition ex_m : dns :=
+  {| m_id := 4660;
+     m_flags := {| f_qr := true; f_opcode := 0; f_aa := false; f_tc := false; f_rd := true; f_ra := true;
+                   f_ad := false; f_cd := false; f_rcode := 0 |};
+     m_qd := [{| q_name := www; q_type := 1; q_class := 1 |}];
+     m_an := [{| r_type := 1; r_name := www; r_class := 1; r_ttl := 300; r_data := RFields [VN 1572395042] |};
+              {| r_type := 15; r_name := www; r_class := 1; r_ttl := 300;
+                 r_data := RFields [VN 10; VName [l_mail; l_example; l_com]] |}];
+     m_ns := []; m_ar := [] |}.
+
+Definition ex_b : bytes :=
+  [18; 52; 129; 128; 0; 1; 0; 2; 0; 0; 0; 0;
+   3; 87; 119; 87; 7; 69; 120; 97; 109; 112; 108; 101; 3; 99; 111; 109; 0; 0; 1; 0; 1;
+   192; 12; 0; 1; 0; 1; 0; 0; 1; 44; 0; 4; 93; 184; 216; 34;
+   192; 12; 0; 15; 0; 1; 0; 0; 1; 44; 0; 9; 0; 10; 4; 77; 65; 73; 76; 192; 16].
+
+Example ex_wf : dns_wf ex_m = true. Proof. vm_compute. reflexivity. Qed.
+
+Example ex_renders : renders_dns ex_m ex_b.
+Proof.
+  change ex_b with
+    (header ex_m ++
+     ([3; 87; 119; 87; 7; 69; 120; 97; 109; 112; 108; 101; 3; 99; 111; 109; 0] ++ be16 1 ++ be16 1) ++
+     ([192; 12; 0; 1; 0; 1; 0; 0; 1; 44; 0; 4; 93; 184; 216; 34] ++
+      [192; 12; 0; 15; 0; 1; 0; 0; 1; 44; 0; 9; 0; 10; 4; 77; 65; 73; 76; 192; 16]) ++ [] ++ []).
+  apply RM_message.
+  - apply renders_seq_one. apply (RQ_question _ (Build_question www 1 1)). unfold www.
+    render_label [87; 119; 87] [7; 69; 120; 97; 109; 112; 108; 101; 3; 99; 111; 109; 0].
+    render_label [69; 120; 97; 109; 112; 108; 101] [3; 99; 111; 109; 0].
+    render_label [99; 111; 109] [0].
+    apply RN_root.
+  - apply RS_cons; [|apply renders_seq_one].
+    + apply (RR_record _ (Build_rr 1 www 1 300 (RFields [VN 1572395042])) [192; 12] [93; 184; 216; 34]);
+        cbn [r_name r_type r_data].
+      * render_pointer 12.
+      * apply (RD_fields _ 1 [KU32]); [reflexivity|]. apply renders_fields_one. apply (RF_u32 _ 1572395042). lia.
+    + apply (RR_record _ (Build_rr 15 www 1 300 (RFields [VN 10; VName [l_mail; l_example; l_com]])) [192; 12]
+               [0; 10; 4; 77; 65; 73; 76; 192; 16]); cbn [r_name r_type r_data].
+      * render_pointer 12.
+      * apply (RD_fields _ 15 [KU16; KName]); [reflexivity|].
+        apply (RFs_cons _ KU16 [KName] [VN 10] [VName [l_mail; l_example; l_com]] (be16 10) [4; 77; 65; 73; 76; 192; 16]);
+          [apply RF_u16; lia|].
+        apply renders_fields_one. apply RF_name.
+        render_label [77; 65; 73; 76] [192; 16].
+        render_pointer 16.
+  - apply RS_nil.
+  - apply RS_nil.
+Qed.
+
+
+(* the general theorem applies: both decoders accept ex_b with a message equivalent to ex_m ... *)
+Example ex_accepted : exists m' s, dec_Dns ex_b = DOk m' s /\ dns_eqv m' ex_m.
+Proof. exact (C04_render_accepted_dec ex_m ex_b ex_wf ex_renders ltac:(vm_compute; discriminate)). Qed.
+
+(* ... which reports the names as they were written *)
+Example ex_spec_names :
+  option_map (fun m => (map q_name (m_qd m), map r_name (m_an m), map r_data (m_an m))) (spec_Dns ex_b) =
+  Some ([[[87; 119; 87]; [69; 120; 97; 109; 112; 108; 101]; [99; 111; 109]]],
+        [[[87; 119; 87]; [69; 120; 97; 109; 112; 108; 101]; [99; 111; 109]];
+         [[87; 119; 87]; [69; 120; 97; 109; 112; 108; 101]; [99; 111; 109]]],
+        [RFields [VN 1572395042];
+         RFields [VN 10; VName [[77; 65; 73; 76]; [69; 120; 97; 109; 112; 108; 101]; [99; 111; 109]]]]).
+Proof. vm_compute. reflexivity. Qed.
+
+(* 2. the special types: an HTTPS record in ServiceMode whose parameters are written port before alpn; an APL
+      record (owner: a pointer) with the negated item 10.0.0.0/8 in the minimal form (one address octet);
+      an OPT record with the client subnet 192.0.2.0/24 written with all four octets, and padding. *)
+Definition ex2_https : rr :=
+  {| r_type := 65; r_name := www; r_class := 1; r_ttl := 3600;
+     r_data := RSvcb 1 [] [PAlpn [[104; 50]]; PPort 443] |}.
+Definition ex2_item : apitem :=
+  {| i_prefix := 8; i_neg := true; i_addr := {| a_fam := 1; a_oct := [10; 0; 0; 0] |} |}.
+Definition ex2_apl : rr :=
+  {| r_type := 42; r_name := www; r_class := 1; r_ttl := 3600; r_data := RApl [ex2_item] |}.
+Definition ex2_ecs : ecs := {| e_src := 24; e_scope := 0; e_addr := {| a_fam := 1; a_oct := [192; 0; 2; 0] |} |}.
+Definition ex2_opt : rr :=
+  {| r_type := 41; r_name := []; r_class := 0; r_ttl := 0;
+     r_data := ROpt 1232 0 0 true [OEcs ex2_ecs; OPadding 3] |}.
+Definition ex2_m : dns :=
+  {| m_id := 1;
+     m_flags := {| f_qr := true; f_opcode := 0; f_aa := false; f_tc := false; f_rd := false; f_ra := false;
+                   f_ad := false; f_cd := false; f_rcode := 0 |};
+     m_qd := []; m_an := [ex2_https]; m_ns := [ex2_apl]; m_ar := [ex2_opt] |}.
+
+Definition ex2_b : bytes :=
+  [0; 1; 128; 0; 0; 0; 0; 1; 0; 1; 0; 1;
+   3; 119; 119; 119; 7; 101; 120; 97; 109; 112; 108; 101; 3; 99; 111; 109; 0;
+     0; 65; 0; 1; 0; 0; 14; 16; 0; 16;  0; 1;  0;  0; 3; 0; 2; 1; 187;  0; 1; 0; 3; 2; 104; 50;
+   192; 12;  0; 42; 0; 1; 0; 0; 14; 16; 0; 5;  0; 1; 8; 129; 10;
+   0;  0; 41; 4; 208; 0; 0; 128; 0; 0; 19;  0; 8; 0; 8; 0; 1; 24; 0; 192; 0; 2; 0;  0; 12; 0; 3; 0; 0; 0].
+
+Example ex2_wf : dns_wf ex2_m = true. Proof. vm_compute. reflexivity. Qed.
+
+Example ex2_renders : renders_dns ex2_m ex2_b.
+Proof.
+  change ex2_b with
+    (header ex2_m ++ [] ++
+     ([3; 119; 119; 119; 7; 101; 120; 97; 109; 112; 108; 101; 3; 99; 111; 109; 0] ++ rr_head ex2_https 16 ++
+      [0; 1; 0; 0; 3; 0; 2; 1; 187; 0; 1; 0; 3; 2; 104; 50]) ++
+     ([192; 12] ++ rr_head ex2_apl 5 ++ [0; 1; 8; 129; 10]) ++
+     ([0] ++ rr_head ex2_opt 19 ++ [0; 8; 0; 8; 0; 1; 24; 0; 192; 0; 2; 0; 0; 12; 0; 3; 0; 0; 0])).
+  apply RM_message.
+  - apply RS_nil.
+  - apply renders_seq_one.
+    apply (RR_record _ ex2_https [3; 119; 119; 119; 7; 101; 120; 97; 109; 112; 108; 101; 3; 99; 111; 109; 0]
+             [0; 1; 0; 0; 3; 0; 2; 1; 187; 0; 1; 0; 3; 2; 104; 50]); cbn [r_name r_type r_data ex2_https].
+    + unfold www. render_label l_www [7; 101; 120; 97; 109; 112; 108; 101; 3; 99; 111; 109; 0].
+      render_label l_example [3; 99; 111; 109; 0]. render_label l_com [0]. apply RN_root.
+    + (* ServiceMode, the parameters in the order port, alpn *)
+      apply (RD_svcb_service _ 65 1 [] [PAlpn [[104; 50]]; PPort 443] [PPort 443; PAlpn [[104; 50]]] [0]);
+        [right; reflexivity|discriminate|apply RN_root|apply perm_swap].
+  - apply renders_seq_one.
+    apply (RR_record _ ex2_apl [192; 12] [0; 1; 8; 129; 10]); cbn [r_name r_type r_data ex2_apl].
+    + render_pointer 12.
+    + apply (RD_apl _ _ [[0; 1; 8; 129; 10]]). constructor; [|constructor].
+      (* the minimal form: one address octet *)
+      apply (RI_item ex2_item [10]). apply (RA_cut (i_addr ex2_item) 1); [vm_compute; discriminate|repeat constructor].
+  - apply renders_seq_one.
+    apply (RR_record _ ex2_opt [0] [0; 8; 0; 8; 0; 1; 24; 0; 192; 0; 2; 0; 0; 12; 0; 3; 0; 0; 0]);
+      cbn [r_name r_type r_data ex2_opt].
+    + apply RN_root.
+    + apply (RD_opt _ 1232 0 0 true _ [[0; 8; 0; 8; 0; 1; 24; 0; 192; 0; 2; 0]; [0; 12; 0; 3; 0; 0; 0]]).
+      constructor; [|constructor; [|constructor]].
+      * (* a /24 written with all four octets *)
+        apply (RO_ecs ex2_ecs [192; 0; 2; 0]). apply (RA_cut (e_addr ex2_ecs) 4); [vm_compute; discriminate|constructor].
+      * apply (RO_padding 3 [0; 0; 0]); [reflexivity|repeat constructor].
+Qed.
+
+Example ex2_spec : spec_Dns ex2_b = Some ex2_m.
+Proof. vm_compute. reflexivity. Qed.
